@@ -701,7 +701,7 @@ EXPLICIT_COMPUTE = [
 def generate(ctx):
     rng = ctx.rng
     # function level: traversal model
-    for _ in range(ctx.n(800, 12000)):
+    for _ in range(ctx.n(800, 10000)):
         ids = rng.sample(range(12), rng.randint(1, 5))
         args = [gen_tree(rng, 0, ids) for _ in range(rng.randint(0, 4))]
         yield "unpack", {"args": args, "traverse": rng.random() < 0.8}
@@ -713,15 +713,19 @@ def generate(ctx):
         yield "compute", dict(e)
         yield "persist", {"ids": _coll_ids(e["args"]), "kinds": e["kinds"]}
     scheds = ["sync", "sync", "threads"] + (["processes"] if ctx.thorough() else [])
-    for _ in range(ctx.n(45, 700)):
+    for _ in range(ctx.n(45, 450)):
         kinds = rng.choice([None, None, ["delayed", "array", "bag", "scalar"], ["delayed", "array"], ["delayed", "bag", "array"]])
+        sched = rng.choice(scheds)
+        if sched == "processes" and kinds is None:
+            # the pyarrow import stub is not active in worker processes: no dataframes with the processes scheduler
+            kinds = ["delayed", "array", "bag", "scalar"]
         nk = len(kinds or KINDS)
         ids = rng.sample(range(3 * nk), rng.randint(1, 5))
         delayed_ids = [i for i in range(3 * nk) if (kinds or KINDS)[i % nk] == "delayed"]
         args = [_hashable_fix(gen_tree(rng, 0, ids, maxdepth=3), delayed_ids, rng) for _ in range(rng.randint(1, 4))]
-        yield "compute", {"args": args, "kinds": kinds, "traverse": rng.random() < 0.85, "scheduler": rng.choice(scheds),
+        yield "compute", {"args": args, "kinds": kinds, "traverse": rng.random() < 0.85, "scheduler": sched,
                           "optimize_graph": rng.random() < 0.7}
-    for _ in range(ctx.n(8, 120)):
+    for _ in range(ctx.n(8, 80)):
         kinds = rng.choice([None, ["delayed", "array", "bag", "scalar"]])
         nk = len(kinds or KINDS)
         yield "persist", {"ids": [rng.randrange(2 * nk) for _ in range(rng.randint(1, 5))], "kinds": kinds,
